@@ -2,6 +2,7 @@ package util
 
 import (
 	"strings"
+	"unicode/utf8"
 )
 
 func CleanUTF8(s []byte) []byte {
@@ -26,4 +27,15 @@ func findLastEndOfASCII(s []byte) int {
 		}
 	}
 	return 0
+}
+
+// CleanLabelValues replaces invalid UTF-8 sequences in-place in the given strings meant for metric label values, which
+// are rejected (by panic) by the Prometheus library otherwise. Field values from input are arbitrary bytes.
+func CleanLabelValues(values []string) []string {
+	for i, v := range values {
+		if !utf8.ValidString(v) {
+			values[i] = strings.ToValidUTF8(v, "\uFFFD")
+		}
+	}
+	return values
 }
